@@ -258,6 +258,15 @@ def r_guard_condition(rep, f, fn, body, main, m):
             L, R = R, L
             op = {"ge": "le", "gt": "lt"}[op]
 
+        def strictly_positive(p):
+            # a sum of non-negative terms one of which is a positive constant or a positive configuration field
+            if not nonneg(p):
+                return False
+            for mono, c in p.t.items():
+                if c > 0 and all(assume(a_) or (a_.startswith("const:") and a_.endswith(("::EPSILON", "::MIN_POSITIVE"))) for a_, _ in mono):
+                    return True
+            return False
+
         def is_step_magnitude(p):
             # positive multiple of |h| (abs[..] of the step variable) or of a magnitude-valued step variable
             if len(p.t) != 1:
@@ -270,6 +279,9 @@ def r_guard_condition(rep, f, fn, body, main, m):
             elif not nonneg(R):
                 probs.append(("viol", "the threshold %r can be negative (it is not a magnitude): for x < 0 the test `%s` never fires, rejected steps can shrink h to zero and the loop never exits"
                               % (R, tast.render(g["cond"])[:70]), g))
+            elif op == "lt" and not strictly_positive(R):
+                probs.append(("viol", "the strict test `%s` cannot fire when its threshold %r is zero (x == 0): a step that has shrunk to exactly 0 is retried for ever"
+                              % (tast.render(g["cond"])[:70], R), g))
             else:
                 good += 1
         elif op == "eq":
@@ -455,8 +467,10 @@ def r_guards(rep, f, include_rk4=False):
 
 
 # ------------------------------------------------------------------------------------------ R-REJECT-SHRINK
-def r_reject_shrink(rep, f):
+def r_reject_shrink(rep, f, only=None, positive=False):
     for mod, ty in CONTROLLED:
+        if only is not None and mod not in only:
+            continue
         fn = solve_fn(mod, ty)
         key = "R-REJECT-SHRINK:%s" % fn
         try:
@@ -465,6 +479,12 @@ def r_reject_shrink(rep, f):
             rep.inconc("R-REJECT-SHRINK", key, str(e))
             continue
         bad = [r for r in res if not r["ok"]]
+        if positive:
+            # a retry with a step of 0 is no retry: the solver gives up with StepSizeTooSmall on a problem it could solve
+            for r in res:
+                if r["ok"] and not r.get("unknown") and r.get("lo") is not None and not r["lo"] > 0:
+                    r = dict(r, ok=False, msg="on a rejecting path the next step is h * g with |g| in %s (g = %s): the factor can be 0, the retried step has no length" % (r["range"], r["g"][:160]))
+                    bad.append(r)
         for r in bad:
             rep.violation("R-REJECT-SHRINK", "%s:%s" % (key, r["case"]), r["msg"], r.get("span"))
         if not bad:
